@@ -315,6 +315,8 @@ def walker_dependency(rep, tier):
                    function='mindsdb_sql.planner.utils:query_traversal', clause='the visitor is applied once to every node reachable through the slots this property uses; replacements land in place')
 
 def check(rep, tier):
+    from vlib import statecensus
+    statecensus.obligations(rep, 'C11', 'planner')
     walker_dependency(rep, tier)
     rep.dropped = 'method bodies read with ast.parse; the rewrite visitor is a nested closure executed by pysym'
     rep.assume('C13 coverage of identifiers by the walker', 'C10.strip for the qualifier edit', 'meaning preservation of the edit set under shadowing is NOT decided (bounded only)')
